@@ -234,12 +234,16 @@ func runCase(c Case) []ev.Violation {
 
 	case "least-connections":
 		ref := make([]int64, len(eps))
+		// the application hands every request its own copies of the endpoints (the repository's
+		// GetHealthy returns fresh structs): the endpoint object one request counts up is never
+		// the object a later request selects among, only its identity (name, URL) is the same
+		own := func(i int) *domain.Endpoint { e := *eps[i]; return &e }
 		apply := func(i int, d int64) {
 			if d > 0 {
-				sel.IncrementConnections(eps[i])
+				sel.IncrementConnections(own(i))
 				ref[i]++
 			} else {
-				sel.DecrementConnections(eps[i])
+				sel.DecrementConnections(own(i))
 				if ref[i] > 0 {
 					ref[i]--
 				}
@@ -275,10 +279,14 @@ func runCase(c Case) []ev.Violation {
 		if len(distinct) >= 2 {
 			rec.NT(fmt.Sprintf("LC|%v|%v", c.EPs, c.Ops))
 		}
-		e, err := sel.Select(ctx, eps)
+		fresh := make([]*domain.Endpoint, len(eps))
+		for i := range eps {
+			fresh[i] = own(i)
+		}
+		e, err := sel.Select(ctx, fresh)
 		j := -1
 		if err == nil {
-			j = indexOf(eps, e)
+			j = indexOf(fresh, e)
 		}
 		switch {
 		case j < 0:
